@@ -171,6 +171,10 @@ func trustedResourceURLFormat(format string, args map[string]string) (TrustedRes
 		})
 		if countDoubleDotSegments(ret) != countDoubleDotSegments(masked) {
 			err = fmt.Errorf(`arguments must not form a ".." path segment in %q`, ret)
+		} else if len(ret) > 1 && ret[0] == '/' && (ret[1] == '/' || ret[1] == '\\') && !strings.HasPrefix(format, "//") {
+			// e.g. `/%{dir}/static/app.js` with an empty argument: the path-absolute format
+			// would become the scheme-relative URL `//static/app.js`, which names a host.
+			err = fmt.Errorf("empty arguments must not turn the path %q into the scheme-relative URL %q", format, ret)
 		}
 	}
 	return TrustedResourceURL{ret}, err
